@@ -109,6 +109,20 @@ func (p *Play) record(op OpRec, err error) OpRec {
 
 func (p *Play) tableNow() *pt.Table { return p.SS.S.TE.GetTable() }
 
+// RefusedResponses lists the answers to readiness / ante / blind requests that the engine refused although the hand
+// had asked that very player (the driver answers each request once per asked player, in the order asked).
+func (p *Play) RefusedResponses() []h.ActRec {
+	var out []h.ActRec
+	for _, hd := range p.SS.Hands {
+		for _, a := range hd.Acts {
+			if a.Err != "" && (a.Round == "ready" || a.Round == "ante" || a.Round == "blinds") {
+				out = append(out, a)
+			}
+		}
+	}
+	return out
+}
+
 func (p *Play) bankrollNow(id string) (int64, bool) {
 	t := p.tableNow()
 	if i := t.FindPlayerIdx(id); i >= 0 {
